@@ -16,6 +16,11 @@ EXTRA = {
     "C14": "Note: tests/test_clf_pn532.py cannot be run on its own in this sandbox (it patches sys.platform); run the other tests/test_clf_*.py files and compare failing sets with the unchanged code.",
 }
 HINTS = {
+    9: ("For this round pick a code site and a kind of mistake that are DIFFERENT from the ones above - it is round 9.  Read the "
+        "anchored files completely; prefer statements in the middle of long functions that none of the earlier ideas touched, "
+        "conditions with three or more terms, arithmetic on sequence numbers / lengths / timeouts, and code that runs only for "
+        "the second or later item of something (second fragment, second socket, second exchange).  The change must be something "
+        "a maintainer could plausibly commit."),
     8: ("For this round pick a code site and a kind of mistake that are DIFFERENT from the ones above - it is round 8, the obvious "
         "sites are used up: read the anchored files completely and look for a statement whose removal/alteration no earlier idea "
         "touched; think of rare but legal protocol situations (simultaneous actions of both peers, an answer arriving while the "
